@@ -18,7 +18,13 @@ PLAN = dict(
              "give the input distribution (mem/table/alloc = stores/jump tables/bump allocation present, blocksK = log2 of heap blocks "
              "touched at run time, exitN/undefN = reference runs ending in exit / in a source-level undefined operation, liveN).",
         explanation="theorems (Props/C08.v): all instruction-selection lemmas, jump-table stride, share/erase/release/acquire refinement, "
-                    "for all registers and contents; the composition rv_codegen_correct is stated, not proved. Correspondence: model "
+                    "one-block store/load, for all registers and contents; forward simulation against the linear AxCut machine for the integer "
+                    "fragment and for closures without captured variables: state relation (position i <-> registers 4+2i, 5+2i), statement-level "
+                    "C08_sim_literal/op/op_undefined/ifc (12 jump forms)/substitute/call/exit/create/invoke for every context within capacity, "
+                    "C08_sim_exec (induction on fuel, progress included), program level C08_codegen_simulates_int / _cf under boolean hypotheses "
+                    "(int_frag / cf_frag, lin_check_prog, asm_wf of the emitted code, entry definition with <= 14 parameters, length args = n), "
+                    "non-vacuity examples evaluated on both machines, refutations without the arity / capacity hypothesis; for programs with heap "
+                    "objects the composition rv_codegen_correct is stated, not proved. Correspondence: model "
                     "instruction list = Rust instruction list (comments dropped), model rendering of the Rust list (comments kept) = Rust "
                     "routine text verbatim, Rust panic <=> model Err. Semantics: for print-free programs the Rust-emitted code run on "
                     "Sem/RVSem.v gives the observation of Sem/AxSem.run_linear for every argument tuple whose reference run exits or hits "
